@@ -38,6 +38,8 @@ type rparams struct {
 	// server 2 s late; the copy of the first segment is presented 1 s into that hold
 	Hold int64
 	Prop string // property the scenario is run for (default C06)
+	// OtherPort: the server listens on two ports; the replay goes to the one the original did not use
+	OtherPort bool
 }
 
 func (p rparams) String() string {
@@ -45,7 +47,7 @@ func (p rparams) String() string {
 	if p.UDP {
 		t = "udp"
 	}
-	return fmt.Sprintf("%s tp=%s kind=%s when=%s wait=%v cache-capacity=%d reload=%q hold-at=%d seed=%d", t, p.TP, p.Kind, p.When, p.Wait, p.Capacity, p.Reload, p.Hold, p.Seed)
+	return fmt.Sprintf("%s tp=%s kind=%s when=%s wait=%v cache-capacity=%d reload=%q hold-at=%d other-port=%v seed=%d", t, p.TP, p.Kind, p.When, p.Wait, p.Capacity, p.Reload, p.Hold, p.OtherPort, p.Seed)
 }
 
 var debugCache = os.Getenv("VERIF_DEBUG_CACHE") != ""
@@ -62,6 +64,11 @@ func rexec(p rparams, pats []xfer.NamedTP, ctl *explore.Ctl) explore.Result {
 	cfg := world.Config{UDP: p.UDP, MTU: 1400, ClientTP: xfer.FindTP(pats, p.TP), ServerTP: xfer.FindTP(pats, p.TP), Seed: p.Seed, Horizon: 400 * time.Second}
 	cfg.RawMux = p.Reload != "" || p.Kind == "cross-transport"
 	cfg.BothTransports = p.Kind == "cross-transport"
+	cfg.SecondPort = p.OtherPort
+	replayPort := world.ServerPort
+	if p.OtherPort {
+		replayPort++
+	}
 	if p.Kind == "mid-delivery" {
 		cfg.C2S.HoldAt, cfg.C2S.HoldFor = p.Hold, 2*time.Second
 	}
@@ -129,7 +136,11 @@ func rexec(p rparams, pats []xfer.NamedTP, ctl *explore.Ctl) explore.Result {
 			var err error
 			c, err = dial(1000)
 			if err != nil {
-				v.Add("setup", "genuine dial failed: %v", err)
+				sig := "setup"
+				if p.Kind == "mid-delivery" {
+					sig = "genuine-traffic-disturbed" // the copy was taken for the original
+				}
+				v.Add(sig, "genuine dial failed: %v", err)
 				return false
 			}
 			if _, err := c.Write(msg); err != nil {
@@ -237,7 +248,7 @@ func rexec(p rparams, pats []xfer.NamedTP, ctl *explore.Ctl) explore.Result {
 			data := append([]byte(nil), tap.Data...)
 			d := simnet.Dialer{N: w.Net, Source: advIP, OnConn: func(c *simnet.Conn) { advConns = append(advConns, c) }}
 			for _, cut := range cuts {
-				ac, err := d.DialContext(nil, "tcp", fmt.Sprintf("10.0.0.1:%d", world.ServerPort))
+				ac, err := d.DialContext(nil, "tcp", fmt.Sprintf("10.0.0.1:%d", replayPort))
 				if err != nil {
 					v.Add("setup", "adversary dial failed: %v", err)
 					return
@@ -254,7 +265,7 @@ func rexec(p rparams, pats []xfer.NamedTP, ctl *explore.Ctl) explore.Result {
 				}
 			}
 			advAddr := &net.UDPAddr{IP: advIP, Port: 5555}
-			srvAddr := &net.UDPAddr{IP: net.IPv4(10, 0, 0, 1), Port: world.ServerPort}
+			srvAddr := &net.UDPAddr{IP: net.IPv4(10, 0, 0, 1), Port: replayPort}
 			w.Net.NewEndpoint(advIP, 5555)
 			presentedAfter := func(d *simnet.Dgram) int {
 				n := 0
@@ -402,6 +413,22 @@ func PartyWithoutCredentialUnits(prop string) []runner.Unit {
 						i++
 						run(u, rparams{UDP: udp, TP: tp, Kind: "cross-transport", When: when, Wait: wait, Seed: int64(500 + i)})
 					}
+				}
+			}
+		}
+	}})
+	// the server listens on two ports: recorded traffic is presented to the other one
+	us = append(us, runner.Unit{Name: "replay-other-port", Cost: 3, Run: func(u *runner.U) {
+		i := 0
+		for _, udp := range []bool{false, true} {
+			for _, when := range []string{"during", "after-close"} {
+				for _, wait := range []time.Duration{0, 6 * time.Second} {
+					i++
+					kind := "whole"
+					if udp {
+						kind = "each"
+					}
+					run(u, rparams{UDP: udp, TP: "nil", Kind: kind, When: when, Wait: wait, OtherPort: true, Seed: int64(800 + i)})
 				}
 			}
 		}
